@@ -23,7 +23,7 @@ ASSUMPTIONS = [
     "random.uniform(a, b) lies between a and b; send_sd observed as a call (no remote argument = multicast group)",
     "repetition count 0..4 enumerated (the property's own bound); delays and TTL symbolic",
 ]
-BOUNDED = ["repetition count enumerated 0..4 (the property's own bound); _service_found is checked against a store of up to three offers from two sources"]
+BOUNDED = ["repetition count enumerated 0..4 (the property's own bound)"]
 EXPLANATION = "the find task is verified as a trace for every timing configuration, arbitrarily many watched filters (comprehension contract: an arbitrary filter contributes its FindService entry iff it has no live offer at that instant) and every change of the known offers between rounds"
 
 
@@ -185,29 +185,37 @@ def ob_send_find_services(vc):
 
 
 def ob_service_found(vc):
-    """_service_found(filter): true iff some stored offer (any source) matches the filter"""
-    loop = vc.install_loop(LL.FakeLoop(vc.real("now", 0)))
-    prot, sent = SS.gen_sd_protocol(vc, "prot")
-    disc = prot.discovery
+    """_service_found(filter) over a store with ARBITRARILY MANY offers from arbitrarily many
+    sources: True only if some stored offer matches the filter (the witness the quantifier
+    produced is in the store and matches); False only if no stored offer matches -- shown for
+    the tracked entries and for one ARBITRARY entry of the store"""
+    w = C05.DWorld(vc, register=False, track=("X_Sx",))  # (X, Sx): an arbitrary entry of the store
     f = SCFG.gen_service(vc, "F", with_options=False)
-    A = vc.opaque("A", "addr")
-    B = vc.opaque("B", "addr")
-    vc.assume(A != B)
-    stored = []
-    for name, addr in (("s0", A), ("s1", A), ("s2", B)):
-        if vc.bool(name + ".present"):
-            s = SCFG.gen_service(vc, name, with_options=False)
-            for other in stored:
-                vc.assume(other.service_id != s.service_id)
-            disc.found_services.store[addr][s] = (disc._notify_service_stopped, None)
-            stored.append(s)
-    heap = vc.snapshot(prot=prot)
-    r = vc.body(SD.ServiceDiscover._service_found)(disc, f)
+    heap = vc.snapshot(prot=w.prot)
+    r = vc.body(SD.ServiceDiscover._service_found)(w.disc, f)
     check_frame(vc, heap, "_service_found", ())
-    exp = False
-    for s in stored:
-        exp = exp or f.matches_service(s)
-    vc.check_eq(r, exp, "_service_found.iff_some_live_offer_matches")
+    if vc.native:
+        exp = False
+        for addr, services in w.disc.found_services.store.items():
+            for s in services:
+                exp = exp or f.matches_service(s)
+        vc.check_eq(r, exp, "_service_found.iff_some_live_offer_matches")
+        return
+    if r:
+        vc.cover("found")
+        ws = vc.witnesses()
+        vc.check(len(ws) == 2, "_service_found.true_has_a_witness")
+        if len(ws) == 2:
+            addr, inner = ws[0]
+            service = ws[1][0]
+            vc.check(w.present(addr, service), "_service_found.true_only_for_a_stored_offer")
+            vc.check(f.matches_service(service), "_service_found.true_only_if_that_offer_matches")
+    else:
+        vc.cover("not-found")
+        for slot, st in w.slots.items():
+            if st is not None:
+                vc.cover("stored-offer")
+                vc.check(not f.matches_service(slot[1]), "_service_found.false_only_if_no_stored_offer_matches")
 
 
 def ob_discover_start(vc):
@@ -222,4 +230,4 @@ def ob_discover_start(vc):
 
 
 HARNESSES = [SCFG.ob_create_find_entry_refines, SCFG.ob_matches_service_refines, ob_service_found, ob_send_find_services, ob_discover_start, C05.ob_handle_offer, C05.ob_expiry]
-EXPECT_COVERS = {"ob_send_find_services": ["nothing-watched", "all-found", "all-rounds", "element"]}
+EXPECT_COVERS = {"ob_send_find_services": ["nothing-watched", "all-found", "all-rounds", "element"], "ob_service_found": ["found", "not-found", "stored-offer"]}
